@@ -421,8 +421,8 @@ def judge_c01(case, log):
                     vs.append(Violation("C01", "C01/life/unstable-status", "%s returned %d after %d" % (name, op["ret"], status)))
                 if op["t1"] != op["t0"]:
                     vs.append(Violation("C01", "C01/life/later-wait-not-immediate", "%s took %d ms after status was known" % (name, op["t1"] - op["t0"])))
-                if any(t[0] in ("kill", "waitpid", "poll") for t in op.get("tr", [])):
-                    vs.append(Violation("C01", "C01/life/later-wait-touches-os", "%s after status made system calls" % name))
+                if any(t[0] in ("kill", "waitpid") for t in op.get("tr", [])):
+                    vs.append(Violation("C01", "C01/life/later-wait-touches-os", "%s after the status was returned signalled or tried to reap again" % name))
         elif name in ("W", "ST") and status is not None:
             vs.append(Violation("C01", "C01/life/unstable-status", "%s returned %d after status %d" % (name, op["ret"], status)))
         elif name == "W" and op["ret"] == ETIMEDOUT and end is not None and end["vt"] <= op["t0"] \
